@@ -417,6 +417,40 @@ def step (s : State) (toks : List String) : State × String :=
         let m' := if isEnd name then mn.m else xs.foldl (fun m x => m.update (measure name x h)) mn.m
         ({ s with mon := some { mn with m := m' }, nconn := 0 }, "ok")
     | _, _, _ => (s, "bad-op")
+  | ["tmeasure", name, host, n, mode, arrived] =>
+    -- `TimeMeasure.Record` (measure.go:146-158), n times, of a measure made by
+    -- `NewTimeMeasure[WithHost]`: `name_wall`, `name_system`, `name_user`, each with the host the
+    -- measure was bound to; the values (wall / CPU times) are the ones that arrived
+    let lists : Option (List (List Float)) :=
+      (arrived.dropPrefix? "arrived=").bind fun r => (r.toString.splitOn ";").mapM parseBits
+    match parseInt host, n.toNat?, lists, s.mon with
+    | some h, some n, some [ws, ss, us], some mn =>
+      if s.nconn = 0 || (mode ≠ "fresh" && mode ≠ "reuse") then (s, "bad-op")
+      else if ws.length ≠ n || ss.length ≠ n || us.length ≠ n then (s, "lost-or-duplicated")
+      else
+        let recs := (ws.zip (ss.zip us))
+        let m' := recs.foldl (fun m r =>
+          ((m.update (measure (name ++ "_wall") r.1 h)).update (measure (name ++ "_system") r.2.1 h)).update
+            (measure (name ++ "_user") r.2.2 h)) mn.m
+        ({ s with mon := some { mn with m := m' } }, "ok")
+    | _, _, _, _ => (s, "bad-op")
+  | ["cmeasure", name, host, deltas] =>
+    -- `CounterIOMeasure.Record` (measure.go:226-253) of a measure made by
+    -- `NewCounterIOMeasure[WithHost]`: per record the four differences, as `float64`
+    let recs : Option (List (List Nat)) :=
+      (deltas.splitOn ";").mapM fun r =>
+        match (r.splitOn ".").mapM String.toNat? with
+        | some l => if l.length = 4 then some l else none
+        | none => none
+    match parseInt host, recs, s.mon with
+    | some h, some recs, some mn =>
+      if s.nconn = 0 then (s, "bad-op")
+      else
+        let m' := recs.foldl (fun m d =>
+          (["_rx", "_tx", "_msg_rx", "_msg_tx"].zip d).foldl
+            (fun m p => m.update (measure (name ++ p.1) (Float.ofNat p.2) h)) m) mn.m
+        ({ s with mon := some { mn with m := m' } }, "ok")
+    | _, _, _ => (s, "bad-op")
   | ["send", c, name, bits, host] =>
     match c.toNat?, parseF bits, parseInt host, s.mon with
     | some c, some x, some h, some mn =>
